@@ -41,6 +41,9 @@ func wrapperFields(c *Ctx) []wrapperField {
 				if streamKind(ft) == 2 {
 					out = append(out, wrapperField{rel, canonTypeName(rel, n), canonField(tn.Type(), st.Field(i).Name()), true})
 				} else if isStreamNamed(ft) {
+					if borrowedStreamField(c, tn, i) {
+						continue // a second reference to a stream that another wrapper owns and closes (a run sharing its maker's source)
+					}
 					out = append(out, wrapperField{rel, canonTypeName(rel, n), canonField(tn.Type(), st.Field(i).Name()), false})
 				}
 			}
@@ -93,6 +96,7 @@ func ruleOwnCloseForwards(c *Ctx, r *R) {
 		if wf.slice {
 			// a loop over the field calling Close on field[i]
 			found := false
+			cursorBad := ""
 			instrs(fn, func(b *ssa.BasicBlock, i int, in ssa.Instruction) {
 				call, ok := in.(*ssa.Call)
 				if !ok || !call.Call.IsInvoke() || call.Call.Method.Name() != "Close" {
@@ -101,9 +105,18 @@ func ruleOwnCloseForwards(c *Ctx, r *R) {
 				if isL, idx := fieldLoadOf(call.Call.Value, wf.field); isL && idx != nil {
 					if _, isConst := idx.(*ssa.Const); !isConst && reaches(b, b) {
 						found = true
+						// the elements before a cursor kept in the wrapper (streams[:pos]) were closed as they ended: the loop
+						// starts at the cursor, not at 0
+						if cur := sliceCursorField(c, wf); cur != "" && !indexStartsAtField(idx, cur) {
+							cursorBad = "the wrapper closes each element of " + wf.field + " as it ends and advances " + cur + ": Close must start at " + wf.field + "[" + cur + "] - starting elsewhere closes finished elements a second time and leaves the last ones open"
+						}
 					}
 				}
 			})
+			if cursorBad != "" {
+				r.violated(key, fn.Pos(), cursorBad)
+				continue
+			}
 			if !found {
 				found = closedByJoinedGoroutines(c, fn, wf)
 			}
@@ -198,6 +211,10 @@ func ruleOwnFieldDiscipline(c *Ctx, r *R) {
 				}
 			}
 		}
+		cursorF := ""
+		if wf.slice {
+			cursorF = sliceCursorField(c, wf)
+		}
 		type result struct {
 			problems []string
 			ppos     token.Pos
@@ -284,6 +301,16 @@ func ruleOwnFieldDiscipline(c *Ctx, r *R) {
 					}
 				case *ssa.Store:
 					fa, ok := x.Addr.(*ssa.FieldAddr)
+					if ok && wf.slice && cursorF != "" && fieldName(fa.X.Type(), fa.Field) == cursorF {
+						if _, isParam := fa.X.(*ssa.Parameter); isParam && isFieldIncDec(x, cursorF, +1) {
+							// s.pos++ moves on to the next element (what s.remaining = s.remaining[1:] does by re-slicing)
+							touched = true
+							if q == 0 {
+								note(in, "the current element of "+wf.field+" is left behind without Close ("+cursorF+" advances)")
+							}
+							return ss(0), true
+						}
+					}
 					if !ok || fieldName(fa.X.Type(), fa.Field) != wf.field {
 						return 0, false
 					}
@@ -459,6 +486,131 @@ func closedByJoinedGoroutines(c *Ctx, closeFn *ssa.Function, wf wrapperField) bo
 			if started {
 				return true
 			}
+		}
+	}
+	return false
+}
+
+// borrowedStreamField: everything ever stored into field #idx of struct type tn is nil or a load of a stream field of ANOTHER
+// struct type of the module that has its own Close method (the owner): the field is a borrowed reference, not an owned stream.
+func borrowedStreamField(c *Ctx, tn *types.TypeName, idx int) bool {
+	nt, ok := tn.Type().(*types.Named)
+	if !ok {
+		return false
+	}
+	n, borrowed := 0, true
+	for _, fn := range c.Funcs {
+		instrs(fn, func(_ *ssa.BasicBlock, _ int, in ssa.Instruction) {
+			st, ok := in.(*ssa.Store)
+			if !ok {
+				return
+			}
+			fa, ok := st.Addr.(*ssa.FieldAddr)
+			if !ok || fa.Field != idx {
+				return
+			}
+			nt2, ok := derefType(fa.X.Type()).(*types.Named)
+			if !ok || nt2.Origin() != nt.Origin() {
+				return
+			}
+			if isNilConst(st.Val) {
+				return
+			}
+			n++
+			v := st.Val
+			for {
+				switch x := v.(type) {
+				case *ssa.MakeInterface:
+					v = x.X
+					continue
+				case *ssa.ChangeInterface:
+					v = x.X
+					continue
+				case *ssa.ChangeType:
+					v = x.X
+					continue
+				}
+				break
+			}
+			ld, ok := v.(*ssa.UnOp)
+			if !ok || ld.Op != token.MUL {
+				borrowed = false
+				return
+			}
+			src, ok := ld.X.(*ssa.FieldAddr)
+			if !ok {
+				borrowed = false
+				return
+			}
+			ont, ok := derefType(src.X.Type()).(*types.Named)
+			if !ok || ont.Origin() == nt.Origin() || ont.Obj().Pkg() == nil {
+				borrowed = false
+				return
+			}
+			rel := relOfTypesPkg(ont.Obj().Pkg())
+			if c.fn(rel+"."+canonTypeName(rel, ont.Obj().Name())+".Close") == nil {
+				borrowed = false
+			}
+		})
+	}
+	return n > 0 && borrowed
+}
+
+func relOfTypesPkg(p *types.Package) string {
+	path := p.Path()
+	if len(path) > len(modPath) && path[:len(modPath)] == modPath {
+		return path[len(modPath)+1:]
+	}
+	return path
+}
+
+// sliceCursorField: the wrapper reads its slice of streams at an index kept in one of its own integer fields
+// (s.streams[s.pos].Next(ctx)): that field's name, "" when the wrapper re-slices instead.
+func sliceCursorField(c *Ctx, wf wrapperField) string {
+	fn := c.fn(wf.rel + "." + wf.typ + ".Next")
+	if fn == nil || len(fn.Params) == 0 {
+		return ""
+	}
+	cur := ""
+	instrs(fn, func(_ *ssa.BasicBlock, _ int, in ssa.Instruction) {
+		call, ok := in.(*ssa.Call)
+		if !ok || !call.Call.IsInvoke() {
+			return
+		}
+		isL, idx := fieldLoadOf(call.Call.Value, wf.field)
+		if !isL || idx == nil {
+			return
+		}
+		if ld, ok := idx.(*ssa.UnOp); ok && ld.Op == token.MUL {
+			if fa, ok := ld.X.(*ssa.FieldAddr); ok && fa.X == ssa.Value(fn.Params[0]) {
+				cur = fieldName(fa.X.Type(), fa.Field)
+			}
+		}
+	})
+	return cur
+}
+
+// indexStartsAtField: idx is a loop counter whose initial value is the receiver's field (for i := s.pos; ...; i++), or the
+// field plus a counter from zero.
+func indexStartsAtField(idx ssa.Value, field string) bool {
+	isFieldLd := func(v ssa.Value) bool {
+		ld, ok := resolveVal(v).(*ssa.UnOp)
+		if !ok || ld.Op != token.MUL {
+			return false
+		}
+		fa, ok := ld.X.(*ssa.FieldAddr)
+		return ok && fieldName(fa.X.Type(), fa.Field) == field
+	}
+	switch x := idx.(type) {
+	case *ssa.Phi:
+		for _, e := range x.Edges {
+			if isFieldLd(e) {
+				return true
+			}
+		}
+	case *ssa.BinOp:
+		if x.Op == token.ADD && (isFieldLd(x.X) || isFieldLd(x.Y)) {
+			return true
 		}
 	}
 	return false
